@@ -67,6 +67,12 @@ def slots(d):
     return out
 
 
+def deep_state(d):
+    """every option and metadata dictionary of a tree as Python sees it (repr keeps the types of
+    nested keys and values, which the JSON rendering of the snapshot does not)"""
+    return [repr(o) for o in slots(d) if isinstance(o, dict)]
+
+
 def structure(d):
     """identity of everything structural in a tree: the section objects and the lists holding
     them (`subsections`, iteration order) — none of it may change when the tree is only observed"""
@@ -135,11 +141,15 @@ class World(object):
             self.trees[int(t)].changes[int(i)].add_file()
         elif k == 'M':
             t, p, kk = op[1:].split('.')
-            d = self.callers.setdefault(int(kk), {'caller': int(kk)})
+            # odd callers own a dictionary with nested dictionaries whose keys are not strings
+            # (legal for json.dumps): observers must not rewrite them either
+            d = self.callers.setdefault(int(kk), {'caller': int(kk)} if int(kk) % 2 == 0 else
+                                        {'caller': int(kk), 'line notes': {10: 'x', 2: 'y'}, 'hunks': [{1: 'first'}, {None: 0}]})
             section_at(self.trees[int(t)], p).meta = d
         elif k in 'PQ':
             d = self.trees[int(op[1:])]
             st0 = structure(d)
+            deep0 = deep_state(d)
             try:
                 data = self.serialise(d)
                 if k == 'Q':
@@ -150,6 +160,8 @@ class World(object):
                 return False, bad
             if structure(d) != st0:
                 bad.append('serialising a tree changed its structure (section objects / subsections lists)')
+            if deep_state(d) != deep0:
+                bad.append('serialising a tree changed one of its dictionaries (nested keys / values)')
             self.trees.append(new)
         elif k == 'E':
             # a fresh empty dictionary of the caller's (stored as given: the setter keeps a reference)
@@ -163,6 +175,7 @@ class World(object):
         elif k == 'O':
             d = self.trees[int(op[1:])]
             st0 = structure(d)
+            deep0 = deep_state(d)
             before = domadapt.canon_tree(domadapt.dump(d))
             try:
                 b1 = self.serialise(d)
@@ -181,6 +194,8 @@ class World(object):
             if structure(d) != st0:
                 bad.append('an observer (to_bytes / == / repr) changed the structure of the tree '
                            '(section objects / subsections lists)')
+            if deep_state(d) != deep0:
+                bad.append('an observer (to_bytes / == / repr) changed one of the dictionaries of the tree (nested keys / values)')
         elif k == 'X':
             t, p, sl = op[1:].split('.')
             sec = section_at(self.trees[int(t)], p)
